@@ -46,8 +46,8 @@ Qed.
 (* ---- flags --------------------------------------------------------------------------------- *)
 (* When no annotation of the graph has a ForwardRef as a direct member (references are evaluated before they
    are walked) every ForwardRef-typed node is flagged cyclic, and every flagged node was made by one of the
-   two revisit branches for a cyclic-capable member (c, var) of some expanded node whose type or unwrapped
-   form was found in the set it is looked up in. *)
+   two revisit branches for a cyclic-capable member (c, var) of some expanded node that counted as visited
+   (its type or unwrapped form was in the set it is looked up in, or its node had been pushed before). *)
 Theorem C09_flags : forall fuel E root g,
   type_graph fuel E root = Ok g -> is_ref root = false ->
   (forall p preds var c, In (p, preds) g -> In (var, c) (level E (unwrap (ntype p))) -> is_ref c = false) ->
@@ -57,7 +57,7 @@ Theorem C09_flags : forall fuel E root g,
        exists p preds var c, In (p, preds) g /\ In n preds /\ In (var, c) (level E (unwrap (ntype p))) /\
          skip var c = false /\ nvar n = var /\ nfor n = c /\ can_be_cyclic E (unwrap c) = true /\
          (n = mkdefer c (unwrap c) var \/ mkref E c (unwrap c) var = Some n) /\
-         exists V0 path, revisit c (unwrap c) (seen_set E (unwrap c) V0 path) = true).
+         exists st0 path, visitedb E c (unwrap c) var st0 path = true).
 Proof. intros fuel E root g H1 H2 H3 n Hn. exact (flags fuel E root g H1 H2 H3 n Hn). Qed.
 
 (* ---- string aliases ------------------------------------------------------------------------ *)
@@ -127,25 +127,11 @@ Proof.
   intros evalref fuel E a m t He Hr. unfold static_order. rewrite He. destruct t; try reflexivity. discriminate.
 Qed.
 
-(* ---- acyclicity: false of the faithful model ------------------------------------------------ *)
-(* "The adjacency is acyclic (graphlib raises no CycleError)" is refuted: a generic is deferred only when it
-   is on its own tree path, but node identity is global, so two same-named fields of one generic type that
-   reach each other crosswise close a cycle.  On every correspondence case the concrete sorter Topo.kahn is
-   compared with graphlib (Some order / CycleError). *)
+(* ---- acyclicity: stated, not proved -------------------------------------------------------- *)
+(* The adjacency is acyclic (graphlib raises no CycleError).  Not proved; on every correspondence case the
+   concrete sorter Topo.kahn is compared with graphlib (Some order / CycleError). *)
 Definition C09_acyclic_full : Prop :=
   forall fuel E root g, type_graph fuel E root = Ok g -> exists order, kahn g = Some order.
-
-Definition cross_env : env := env_of
-  [ (0, {| cmodule := "vm"; cqual := "C0"; cfields := [("f1", GUnion UPipe [GClass 1; GNone])] |});
-    (1, {| cmodule := "vm"; cqual := "C1"; cfields := [("f0", GGen GTuple [GClass 0; GEllipsis])] |});
-    (2, {| cmodule := "vm"; cqual := "R";
-           cfields := [("f0", GGen GTuple [GClass 0; GEllipsis]); ("f1", GUnion UPipe [GClass 1; GNone])] |}) ].
-Theorem C09_refuted_acyclic : exists E root g, type_graph 40 E root = Ok g /\ kahn g = None.
-Proof.
-  exists cross_env, (GClass 2).
-  destruct (type_graph 40 cross_env (GClass 2)) as [g| |] eqn:Hg; [|vm_compute in Hg; discriminate|vm_compute in Hg; discriminate].
-  exists g. split; [reflexivity|]. vm_compute in Hg. inversion Hg; subst. vm_compute. reflexivity.
-Qed.
 
 (* ---- non-vacuity --------------------------------------------------------------------------- *)
 Definition ex_env : env := env_of
@@ -187,4 +173,3 @@ Print Assumptions C09_string_alias.
 Print Assumptions C09_denotes.
 Print Assumptions C09_refuted_nested.
 Print Assumptions C09_input_forms.
-Print Assumptions C09_refuted_acyclic.
